@@ -145,6 +145,13 @@ fn scenario(family: &str, nres: usize, advances: usize) -> Value {
         true
     };
     match family {
+        "stop-advance" | "stop-settime" => {
+            // like race-stop; the clocks keep moving after stop() (see below): time that passes
+            // after a stop request must not make the resource miss it
+            for c in &clocks {
+                c.advance(interval);
+            }
+        }
         "race-stop" => {
             // the controller does not wait for anything: stop arrives at an arbitrary moment
             for _ in 0..advances {
@@ -248,6 +255,18 @@ fn scenario(family: &str, nres: usize, advances: usize) -> Value {
 
     for h in &handles {
         h.stop();
+    }
+    if family == "stop-advance" {
+        // a tick that is shorter than what is left of the cycle interval
+        for c in &clocks {
+            c.advance(StDuration::from_millis(1));
+        }
+    }
+    if family == "stop-settime" {
+        for c in &clocks {
+            let now = c.current_time();
+            c.set_time(StDuration::from_nanos(now.as_nanos() + 1_000_000));
+        }
     }
     let mut joins = Vec::new();
     for h in handles.iter_mut() {
@@ -398,6 +417,8 @@ pub fn run(ctx: &Ctx) -> EngineResult {
         Tier::Quick => vec![
             Scn { family: "lost", resources: 2, advances: 1, bound: 2 },
             Scn { family: "race-stop", resources: 2, advances: 1, bound: 2 },
+            Scn { family: "stop-advance", resources: 2, advances: 1, bound: 2 },
+            Scn { family: "stop-settime", resources: 2, advances: 1, bound: 1 },
             Scn { family: "fault", resources: 2, advances: 1, bound: 2 },
             Scn { family: "stop-paused", resources: 2, advances: 1, bound: 2 },
             Scn { family: "gated", resources: 2, advances: 1, bound: 2 },
@@ -407,6 +428,9 @@ pub fn run(ctx: &Ctx) -> EngineResult {
             Scn { family: "lost", resources: 2, advances: 2, bound: 3 },
             Scn { family: "lost", resources: 3, advances: 1, bound: 3 },
             Scn { family: "race-stop", resources: 2, advances: 2, bound: 4 },
+            Scn { family: "stop-advance", resources: 2, advances: 1, bound: 4 },
+            Scn { family: "stop-settime", resources: 2, advances: 1, bound: 3 },
+            Scn { family: "stop-advance", resources: 3, advances: 1, bound: 2 },
             Scn { family: "fault", resources: 2, advances: 2, bound: 3 },
             Scn { family: "stop-paused", resources: 2, advances: 1, bound: 4 },
             Scn { family: "gated", resources: 2, advances: 1, bound: 4 },
